@@ -1025,6 +1025,8 @@ def compare(op, a, b, st):
 def contains(container, item, st):
     if isinstance(container, VOpt):
         container = container.val
+    if isinstance(item, VOpt) and isinstance(container, (VSeq, VStr)):
+        item = item.val         # an optional item is read as its value (the clause / code guards None separately)
     if isinstance(container, VStr):
         if isinstance(item, VStr):
             return z3.Contains(container.t, item.t)
